@@ -37,6 +37,11 @@ type Timer struct {
 	// This ensures that we do not schedule the timer again if the ScheduleRepeating
 	// callback cancelled the timer.
 	cancelled bool
+
+	// Set while the callback of a repeating schedule runs. The schedule is still held then (its next tick is due):
+	// scheduling again is refused, as it is between two ticks, instead of silently replacing the series. Cancel
+	// clears it, which ends the series and makes the timer schedulable again from inside the callback.
+	inRepeating bool
 }
 
 func NewTimer(ioc *IO) (*Timer, error) {
@@ -59,7 +64,7 @@ func NewTimer(ioc *IO) (*Timer, error) {
 //
 // If the delay is negative or 0, the callback is executed as soon as possible.
 func (t *Timer) ScheduleOnce(delay time.Duration, cb func()) (err error) {
-	if t.state == stateReady {
+	if t.state == stateReady && !t.inRepeating {
 		t.cancelled = false
 		if delay <= 0 {
 			cb()
@@ -94,7 +99,9 @@ func (t *Timer) ScheduleRepeating(repeat time.Duration, cb func()) error {
 	} else {
 		var ccb func()
 		ccb = func() {
+			t.inRepeating = true
 			cb()
+			t.inRepeating = false
 			if t.cancelled {
 				t.cancelled = false
 			} else {
@@ -121,6 +128,7 @@ func (t *Timer) Cancel() error {
 	err := t.it.Unset()
 	if err == nil {
 		t.cancelled = true
+		t.inRepeating = false
 		t.state = stateReady
 	}
 	return err
